@@ -3,6 +3,7 @@
 package lab
 
 import (
+	"github.com/saucelabs/forwarder/internal/martian"
 	"bufio"
 	"bytes"
 	"crypto/tls"
@@ -48,7 +49,13 @@ type C03Case struct {
 	// TargetReadDelayMs: the target starts reading only after this long (a slow consumer): bytes the proxy has already
 	// written - and possibly both half-closes - are then still on their way when the proxy lets go of the connection.
 	TargetReadDelayMs int `json:"target_read_delay_ms,omitempty"`
+	// AgedMs: both sides stay quiet for this long after the tunnel is up, before the scripted traffic starts. The
+	// laboratory runs with the forced-close period shortened to c03Grace (a minute in production): a tunnel older
+	// than that period has still the whole period left once its first direction finishes.
+	AgedMs int `json:"aged_ms,omitempty"`
 }
+
+const c03Grace = 1200 * time.Millisecond
 
 var tunSizes = []int{1, 2, 100, 1000, 4095, 4096, 4097, 16384, 32767, 32768, 32769, 65536, 100000}
 
@@ -544,6 +551,9 @@ func runC03once(c C03Case) []vstat.Failure {
 				}
 			}
 		}()
+		if c.AgedMs > 0 {
+			time.Sleep(time.Duration(c.AgedMs+40) * time.Millisecond)
+		}
 		off, werr := writeSide(conn, c.Target, tid, c.Target.Early, &run.cRecv, deadline)
 		if werr != nil {
 			run.fail("target-write", "target: %v", werr)
@@ -633,6 +643,9 @@ func runC03once(c C03Case) []vstat.Failure {
 	}
 	if m.Status != want {
 		return []vstat.Failure{vstat.Failf("C03:"+c.Route+":status", "tunnel request answered %d, want %d", m.Status, want)}
+	}
+	if c.AgedMs > 0 {
+		time.Sleep(time.Duration(c.AgedMs) * time.Millisecond)
 	}
 	var cwg sync.WaitGroup
 	var clientClosed atomic.Bool
@@ -775,5 +788,38 @@ func classifyC03(c C03Case) (bool, string, []string) {
 var propC03 = vstat.Prop[C03Case]{Name: "TestC03Tunnel", Gen: genC03, Run: runC03, Classify: classifyC03}
 
 func TestC03Tunnel(t *testing.T) { propC03.Check(t, st) }
+
+// Aged tunnels. A tunnel whose first direction has finished is closed by force after a grace period (a minute in
+// production). This test runs in a process of its own with the period shortened to c03Grace: every case lets the
+// tunnel grow older than the period before the scripted traffic starts, and the traffic itself is small, so that
+// after the first half-close the rest takes milliseconds. The period must count from that half-close.
+func genC03Aged(t *rapid.T) C03Case {
+	c := genC03(t)
+	shrink := func(s *TunSide) {
+		for i := range s.Writes {
+			if s.Writes[i] > 100000 {
+				s.Writes[i] = 100000
+			}
+		}
+	}
+	shrink(&c.Client)
+	shrink(&c.Target)
+	c.TargetReadDelayMs = 0
+	c.AgedMs = int(c03Grace/time.Millisecond) + 300
+	return c
+}
+
+func classifyC03Aged(c C03Case) (bool, string, []string) {
+	_, fp, cls := classifyC03(c)
+	return c.Close != "client-close", fp, append(cls, "aged-tunnel")
+}
+
+var propC03Aged = vstat.Prop[C03Case]{Name: "TestC03Aged", Gen: genC03Aged, Run: runC03, Classify: classifyC03Aged}
+
+func TestC03Aged(t *testing.T) {
+	old := martian.VerifSetTunnelGrace(c03Grace)
+	defer martian.VerifSetTunnelGrace(old)
+	propC03Aged.Check(t, st)
+}
 
 var _ = bytes.Equal
